@@ -1,25 +1,29 @@
+/* C05 totality probe: JSON::parse(const char*, size, strict) on LEN fully symbolic bytes (all 256 values), symbolic mode.
+ * Asserted (A1): the call terminates within the unwinding bounds, every memory access of the translated code is in bounds
+ * (CBMC pointer checks / ASan natively) and only parse_error or out_of_range can escape.
+ * Cell: LEN, NB = max number of '[' / '{' bytes in the input (= recursion bound NB+1). */
 #include "harness.h"
-#include "stub_printf.h"
 #include "json_cuts.h"
 int64_t w_json_parse(uint8_t* in, uint64_t n, uint32_t strict, uint64_t* val, uint8_t* sout, uint64_t cap);
+static int is_dig(uint8_t c) { return c >= '0' && c <= '9'; }
 void harness(void) {
   uint8_t in[LEN + 1], sout[LEN + 1];
   in_bytes(in, LEN);
   uint32_t strict = in_bool();
-#if CLASS == 0
-  ASSUME(in[0] == '[' || in[0] == '{');
-#elif CLASS == 1
-  ASSUME(in[0] == '-' || in[0] == '+' || (in[0] >= '0' && in[0] <= '9'));
-#elif CLASS == 2
-  ASSUME(in[0] == 'n' || in[0] == 't' || in[0] == 'f');
-#elif CLASS == 3
-  ASSUME(in[0] == '"');
-#elif CLASS == 4
-  ASSUME(in[0] == ' ' || in[0] == '\t' || in[0] == '\r' || in[0] == '\n' || in[0] == '/');
-#endif
   { unsigned nb = 0; for (unsigned i = 0; i < LEN; i++) nb += (in[i] == '[' || in[i] == '{'); ASSUME(nb <= NB); }
+  /* bound on the exponent loop of the code under test: at most one digit after e/E[+-] */
+  for (unsigned i = 0; i + 2 < LEN; i++) if (in[i] == 'e' || in[i] == 'E') {
+    unsigned j = i + 1;
+    if (in[j] == '+' || in[j] == '-') j++;
+    if (j + 1 < LEN) ASSUME(!(is_dig(in[j]) && is_dig(in[j + 1])));
+  }
   uint64_t val = 0;
   int64_t r = w_json_parse(in, LEN, strict, &val, sout, LEN + 1);
   OBS(r);
-  ASSERT(r >= 0 || r == -20 || r == -1, "only parse_error / out_of_range escape");
+  ASSERT(r >= 0 || r == -20 || r == -1, "A1: only parse_error / out_of_range escape");
+#if LEN == 2
+  /* the complete list of 2-byte RFC 8259 documents whose value is a container */
+  if (in[0] == '[' && in[1] == ']') ASSERT(r == 5 && val == 0, "[] is the empty list in both modes");
+  if (in[0] == '{' && in[1] == '}') ASSERT(r == 6 && val == 0, "{} is the empty dictionary in both modes");
+#endif
 }
